@@ -7,7 +7,7 @@ cd $WT || exit 2
 git diff -- include src > /tmp/seed_patch.diff
 [ -s /tmp/seed_patch.diff ] || { echo "no change applied in $WT"; exit 2; }
 build_demo() {
-  if [ -f OUT/demo.cpp ]; then g++ -std=c++14 -O1 -w -I$WT/include -I$WT/_build/include OUT/demo.cpp -o OUT/demo.bin -ltbb -lboost_timer -lpthread 2>&1 | tail -3; fi
+  if [ -f OUT/demo.cpp ]; then g++ -std=c++14 -O1 -w -DPARMCB_VERIF -DPARMCB_INVARIANTS_CHECK -I$WT/include -I$WT/_build/include OUT/demo.cpp -o OUT/demo.bin -ltbb -lboost_timer -lpthread 2>&1 | tail -3; fi
 }
 run_demo() {
   if [ -f OUT/demo.cpp ]; then (cd OUT && timeout 600 ./demo.bin >/tmp/seed_demo.out 2>&1; echo $?)
@@ -20,9 +20,9 @@ ctest --test-dir $WT/_build -j4 2>&1 | grep -E "tests passed|tests failed"
 echo "== demo with the change (expect non-zero)"
 build_demo; W=$(run_demo); echo "exit=$W"; tail -3 /tmp/seed_demo.out
 echo "== demo without the change (expect 0)"
-git stash -q -- include src
+git apply -R /tmp/seed_patch.diff
 if [ -f OUT/demo.sh ]; then cmake --build $WT/_build -j8 2>&1 | tail -1; fi
 build_demo; WO=$(run_demo); echo "exit=$WO"; tail -2 /tmp/seed_demo.out
-git stash pop -q
+git apply /tmp/seed_patch.diff
 if [ -f OUT/demo.sh ]; then cmake --build $WT/_build -j8 2>&1 | tail -1; fi
 echo "RESULT with=$W without=$WO"
